@@ -9,6 +9,7 @@
 package main
 
 import (
+	"bytes"
 	"context"
 	"encoding/json"
 	"fmt"
@@ -30,7 +31,7 @@ import (
 	"verif/internal/kit"
 )
 
-var argAlpha = []string{"a", "/", "0", "-1", "1", "999999999999", "1s", "x=y", "\"\"", "*", "ex.txt", "missing.txt", "http://h", ":", "{", ".a", "htpasswd=ex.txt", "htpasswd=missing.txt"}
+var argAlpha = []string{"a", "/", "0", "-1", "1", "999999999999", "1s", "-1s", "x=y", "\"\"", "*", "ex.txt", "missing.txt", "http://h", ":", "{", ".a", "htpasswd=ex.txt", "htpasswd=missing.txt"}
 
 // vocab scans the repository for RegisterPlugin("<name>", ...) calls and
 // collects, per directive, the string literals used in case clauses and
@@ -179,7 +180,41 @@ type cfgCase struct {
 var (
 	recentMu sync.Mutex
 	recent   []string
+	curFile  *os.File // side file holding the most recent configurations of this worker
 )
+
+func curFileName(worker int) string {
+	return filepath.Join(os.TempDir(), fmt.Sprintf("c11-recent-%d.json", worker))
+}
+
+// confirmCrash runs the configurations in a fresh process and reports whether that process was terminated too.
+func confirmCrash(texts []string) (bool, string) {
+	b, _ := json.Marshal(texts)
+	f, err := os.CreateTemp("", "c11-confirm-*.json")
+	if err != nil {
+		return false, ""
+	}
+	f.Write(b)
+	f.Close()
+	defer os.Remove(f.Name())
+	ctx, cancel := context.WithTimeout(context.Background(), 90*time.Second)
+	defer cancel()
+	cmd := exec.CommandContext(ctx, os.Args[0], "-tier", "quick", "-worker", "0", "-nworkers", "1")
+	cmd.Env = append(os.Environ(), "C11_TEXTFILE="+f.Name())
+	cmd.WaitDelay = 2 * time.Second
+	out, err := cmd.CombinedOutput()
+	if err == nil || ctx.Err() != nil || strings.Contains(string(out), "CONFIRM-HANG") {
+		return false, ""
+	}
+	msg := ""
+	for _, l := range strings.Split(string(out), "\n") {
+		if strings.HasPrefix(l, "panic:") || strings.HasPrefix(l, "fatal error:") {
+			msg = l
+			break
+		}
+	}
+	return msg != "", msg
+}
 
 var (
 	curStart atomic.Int64
@@ -212,6 +247,11 @@ func runConfig(rep *kit.Report, dirName, text string, realStart bool, local map[
 	recent = append(recent, text)
 	if len(recent) > 6 {
 		recent = recent[1:]
+	}
+	if curFile != nil {
+		// what a parent needs to know if this process is terminated (a panic in a goroutine cannot be recovered)
+		b, _ := json.Marshal(recent)
+		curFile.WriteAt(append(b, '\n'), 0)
 	}
 	recentMu.Unlock()
 	curStart.Store(time.Now().UnixNano())
@@ -330,6 +370,29 @@ func main() {
 			shards = 512
 		}
 		rep.RunWorkers(shards)
+		// a worker that was terminated (a panic in a goroutine started by a directive ends the process) left its most
+		// recent configurations behind: the termination is a finding if they terminate two fresh processes as well
+		for _, k := range rep.FailedWorkers {
+			b, err := os.ReadFile(curFileName(k))
+			if i := bytes.IndexByte(b, '\n'); err == nil && i > 0 {
+				var texts []string
+				if json.Unmarshal(b[:i], &texts) == nil && len(texts) > 0 {
+					ok1, msg := confirmCrash(texts)
+					ok2, _ := confirmCrash(texts)
+					if ok1 && ok2 {
+						// the shortest suffix that still terminates the process names the configuration
+						culprit := texts
+						for len(culprit) > 1 {
+							if ok, _ := confirmCrash(culprit[1:]); !ok {
+								break
+							}
+							culprit = culprit[1:]
+						}
+						rep.Violation("C11/process-terminated", "validating/loading/starting terminated the whole process: "+msg, cfgCase{culprit[0], "process terminated: " + msg, culprit[1:]})
+					}
+				}
+			}
+		}
 		rep.Finish()
 	}
 	runtime.GOMAXPROCS(2) // (one configuration at a time per shard; 16 shards run side by side)
@@ -344,6 +407,9 @@ func main() {
 	os.WriteFile(filepath.Join(scratch, "ex.txt"), []byte("u:{SHA}W6ph5Mm5Pz8GgiULbPgzG37mj9g=\n"), 0o644)
 	os.Chdir(scratch)
 	os.Setenv("CASKETPATH", filepath.Join(scratch, "assets"))
+	if os.Getenv("C11_TEXTFILE") == "" {
+		curFile, _ = os.OpenFile(curFileName(*kit.FlagWorker), os.O_CREATE|os.O_RDWR|os.O_TRUNC, 0o644)
+	}
 	// watchdog: a configuration that does not finish in 20 s, or during which the heap grows by 2 GB, ends the worker
 	go func() {
 		var lastSt int64
@@ -443,6 +509,7 @@ func main() {
 		for _, t := range texts {
 			runConfig(rep, "confirm", t, true, local)
 		}
+		time.Sleep(400 * time.Millisecond) // goroutines started by the directives get their chance to fail
 		fmt.Printf("CONFIRM-DONE %v %v\n", local, time.Since(t0))
 		os.Exit(0)
 	}
@@ -517,6 +584,24 @@ func main() {
 				heads = append(heads, l)
 			}
 		}
+		// plus the two shortest longer argument lists that the directive accepts without a block (proxy / a,
+		// redir a /, basicauth a a a ...): most sub-directives are only read when the head is well-formed
+		acceptedHead := map[string]bool{}
+		for _, l := range argLists {
+			if len(l) <= blockArgs || len(l) > 3 {
+				continue
+			}
+			text := fmt.Sprintf("localhost:0 {\n\t%s %s\n}\n", d, strings.Join(l, " "))
+			input := casket.CasketfileInput{Contents: []byte(text), Filepath: "Casketfile", ServerTypeName: "http"}
+			if err, pv := guarded(func() error { return casket.ValidateAndExecuteDirectives(input, nil, true) }); err == nil && pv == nil {
+				heads = append(heads, l)
+				acceptedHead[strings.Join(l, " ")] = true
+				if len(acceptedHead) == 2 {
+					break
+				}
+			}
+			casket.VerifPurgeEventHooks()
+		}
 		var lines []string
 		lines = append(lines, "") // empty block
 		for _, kw := range append([]string{"a"}, kws...) {
@@ -566,7 +651,7 @@ func main() {
 				l2s := []string{""}
 				if blockLines == 2 && l1 != "" && hi%6 == 0 {
 					l2s = lines[:min(len(lines), 40)]
-				} else if l1 != "" && len(h) == 0 || (len(h) == 1 && h[0] == "/") {
+				} else if l1 != "" && len(h) == 0 || (len(h) == 1 && h[0] == "/") || acceptedHead[strings.Join(h, " ")] {
 					// quick tier: two-line blocks with a first line of at most one argument
 					if len(strings.Fields(l1)) <= 2 && inOwn[strings.Fields(l1 + " x")[0]] {
 						l2s = append([]string{""}, second...)
